@@ -88,6 +88,9 @@ func checkC14(ctx *Ctx) {
 	ids = append(ids, ident{Name: "j", Ins: map[string]string{"in": "carrier"}, Subs: map[string][]string{"in": {"a", "b"}}})
 	ids = append(ids, ident{Name: "j", Ins: map[string]string{"in": "carrier"}, Subs: map[string][]string{"in": {"b", "a"}}})
 	ids = append(ids, ident{Name: "j", Ins: map[string]string{"in": "carrier"}, Subs: map[string][]string{"in": {}}})
+	// two and three joined ports (the order in which they enter the hash must be fixed)
+	ids = append(ids, ident{Name: "jj", Ins: map[string]string{"in1": "c1", "in2": "c2"}, Subs: map[string][]string{"in1": {"a", "b"}, "in2": {"c", "d"}}})
+	ids = append(ids, ident{Name: "jj", Ins: map[string]string{"in1": "c1", "in2": "c2", "in3": "c3"}, Subs: map[string][]string{"in1": {"a"}, "in2": {"b"}, "in3": {"c"}}})
 	// random large identities
 	nr := 60
 	if ctx.Thorough() {
@@ -150,11 +153,19 @@ func checkC14(ctx *Ctx) {
 		}
 	}
 	// stability: ask again (fresh IPs, fresh task objects)
-	for i := 0; i < len(ids) && i < 40; i++ {
-		if okv[i] {
+	for i := 0; i < len(ids); i++ {
+		if i >= 40 && len(ids[i].Subs) < 2 {
+			continue
+		}
+		reps := 1
+		if len(ids[i].Subs) >= 2 {
+			reps = 30 // map iteration order shows only now and then
+		}
+		for k := 0; k < reps && okv[i]; k++ {
 			again := w.Ask(ids[i].fields()...)
 			if again != results[i].real {
 				ctx.Res.Violate(Violation{What: fmt.Sprintf("the same task got two temp dirs: %q and %q", results[i].real, again), Class: "c14.unstable", Witness: ids[i]})
+				break
 			}
 		}
 	}
